@@ -37,7 +37,15 @@ def _model(no_functions=False, no_pep_lmi=False):
 
 
 def _model_full():
-    mk = lambda kind, label, **a: SymObj(kind, label=label, **a)
+    def mk(kind, label, **a):
+        o = SymObj(kind, label=label, **a)
+        if kind == "Constraint":
+            # every constraint has an expression; the second one of each owner is the trivial `0 <= 0` (an empty decomposition), which is a
+            # declared object like any other: it sits in the tables and is expected to get a multiplier
+            o.attrs["expression"] = SymObj("Expression", label="expression of " + label, _is_leaf=False,
+                                           decomposition_dict={} if label.endswith("2") else {("p", "q"): 1})
+            o.attrs["equality_or_inequality"] = "inequality"
+        return o
     m = {}
     m["metrics"] = [mk("Expression", "metric1"), mk("Expression", "metric2")]
     m["cons"] = [mk("Constraint", "pep_c1"), mk("Constraint", "pep_c2")]
@@ -99,7 +107,7 @@ class _Run:
                 self.solves += 1
                 val = self.cfg["value"] if self.solves == 1 else ("value", self.solves)
                 self.trace.append(("solve", self.solves))
-                return ("status%d" % self.solves, "solver", val)
+                return (self.cfg.get("status", "optimal") if self.solves == 1 else "optimal", "solver", val)
             if nm == "get_primal_variables":
                 self.trace.append(("get_primal_variables", self.solves))
                 return (("G", self.solves), ("F", self.solves))
@@ -114,7 +122,10 @@ class _Run:
             if nm == "set_class_constraints":
                 self.regen += 1
                 n0 = self.regen
-                recv.attrs["list_of_class_constraints"] = [SymObj("Constraint", label="%s_class_c%d_gen%d" % (recv.attrs["label"], k, n0)) for k in (1, 2)]
+                recv.attrs["list_of_class_constraints"] = [SymObj("Constraint", label="%s_class_c%d_gen%d" % (recv.attrs["label"], k, n0),
+                                                                  expression=SymObj("Expression", label="class expression", _is_leaf=False,
+                                                                                    decomposition_dict={} if k == 2 else {("p", "q"): 1}),
+                                                                  equality_or_inequality="inequality") for k in (1, 2)]
                 recv.attrs["list_of_class_psd"] = [SymObj("PSDMatrix", label="%s_class_lmi_gen%d" % (recv.attrs["label"], n0))] if recv.attrs["label"] == "f1" else []
                 self.trace.append(("set_class_constraints", recv))
                 return None
@@ -142,6 +153,9 @@ def _configs():
         yield {"heur": heur, "mode": mode, "value": value, "verbose": verbose}
     yield {"heur": None, "mode": "dual", "value": ("value", 1), "verbose": 0, "nofunc": True}
     yield {"heur": None, "mode": "dual", "value": ("value", 1), "verbose": 0, "nopsd": True}
+    # a status that is not plain 'optimal' but comes with a finite value: the solution is published like any other
+    yield {"heur": None, "mode": "dual", "value": ("value", 1), "verbose": 0, "status": "optimal_inaccurate"}
+    yield {"heur": "trace", "mode": "primal", "value": ("value", 1), "verbose": 1, "status": "optimal_inaccurate"}
 
 
 def _labels(objs):
@@ -287,7 +301,7 @@ def _compute(ctx):
         run, it = prepare(cfg)
         m = run.model
         label = "heuristic=%s mode=%s first optimum=%s verbose=%s%s" % (cfg["heur"], cfg["mode"], "finite" if cfg["value"] else "None", cfg["verbose"],
-                                                                         " (model without functions)" if cfg.get("nofunc") else (" (model without LMIs of its own)" if cfg.get("nopsd") else ""))
+                                                                         " (model without functions)" if cfg.get("nofunc") else (" (model without LMIs of its own)" if cfg.get("nopsd") else (" (status %s)" % cfg["status"] if cfg.get("status") else "")))
         try:
             ret = it.run(root.body)
         except AnalysisError as e:
@@ -430,7 +444,7 @@ def _compute(ctx):
             fail("return", "mode 'primal' returns the optimum of solve #%s while the published instance (Gram matrix, function values) is the solution of "
                  "solve #%d: the value returned is not the objective of the instance returned" % (ret[1], nsolve))
         # ---- verbosity changes nothing
-        key = (cfg["heur"], cfg["mode"], bool(cfg["value"]), bool(cfg.get("nofunc")), bool(cfg.get("nopsd")))
+        key = (cfg["heur"], cfg["mode"], bool(cfg["value"]), bool(cfg.get("nofunc")), bool(cfg.get("nopsd")), cfg.get("status"))
         def norm(v):
             if isinstance(v, SymObj):
                 return v.attrs.get("label")
@@ -445,7 +459,7 @@ def _compute(ctx):
         ref_trace.setdefault(key, sig)
     # ---- option strings outside the documented sets are rejected, whatever else they look like
     if "options" in only:
-        probes = [("heur", h) for h in ("logdet", "logdetx", "logdet1.5", "logdet2 steps", "logdet3trace", "xlogdet2", "tracex", "Trace", " logdet2")] + \
+        probes = [("heur", h) for h in ("logdet", "logdetx", "logdet1.5", "logdet2 steps", "logdet3trace", "xlogdet2", "tracex", "Trace", " logdet2", "log1", "det2", "2", "tlogde3", "trace2")] + \
                  [("mode", mo) for mo in ("Dual", "dual ", "both", "", "primal_dual")]
         # ... whatever the solution looks like: also when the first solution already has a single significant eigenvalue
         for what, bad, nb_eig in [(w0, b0, 3) for w0, b0 in probes] + [(w0, b0, 1) for w0, b0 in probes if w0 == "heur"][:4]:
